@@ -427,7 +427,8 @@ REJECTIONS = [
      lambda c, t, p: "qubit_count" in show(c) and strip_typed(c)[0] == "cmp" and t is False,
      "a one-atom register reaches the MPS code, which assumes at least two sites"),
     ("emu_mps.hamiltonian.HamiltonianMPOFactors.__init__", "emu_mps.hamiltonian.HamiltonianMPOFactors", "dim outside {2, 3}",
-     lambda c, t, p: strip_typed(c)[0] == "cmp" and strip_typed(c)[1] == "in" and show(strip_typed(c)[2]) == "dim" and t is False,
+     lambda c, t, p: strip_typed(c)[0] == "cmp" and strip_typed(c)[1] == "in" and show(strip_typed(c)[2]) == "dim" and t is False
+     and strip_typed(c)[3][0] in ("tuple", "list", "set") and sorted(map(repr, strip_typed(c)[3][1])) == [repr(("const", 2)), repr(("const", 3))],
      "an unsupported number of levels builds a Hamiltonian with 2- or 3-level operator blocks"),
     ("emu_sv.sv_backend_impl.SVBackendImpl.__init__", "emu_sv.sv_backend_impl.SVBackendImpl",
      "initial state together with state-preparation errors",
